@@ -14,7 +14,7 @@ pub fn prop() -> Prop {
     Prop {
         id: "C09",
         level: "model_checking",
-        rule: "all streams of <=3 rows {k,v,id} over the 12 group keys {\"a\",\"b\",\"\",\"é\",1,null,absent,\"ab\",\"null\",[\"a\"], a key ending in a backslash, a key holding backslash-t} and of 4 (thorough <=6) rows over a 7-key core of them (including the empty stream and streams whose every row is dropped) x 15 upstream pipelines (--unique on a selection without the key; two selections under one name; take 35 and skip 3 take 100 among them; none, select, select of the key only (so that rows repeat), filter, unique, sort by id desc, sort by the mixed-type key, skip+take, split, take 0, select+sort+skip+take) x {--group-by=.k, --group-by=(get . \"k\"), --merge} x {json, text output}; long cyclic streams of 17, 40, 300 and 1100 rows; streams with 15..257 distinct keys each coming back; non-trivial = two rows share a key or a row is dropped for its key; distinct by construction",
+        rule: "all streams of <=3 rows {k,v,id} over the 12 group keys {\"a\",\"b\",\"\",\"é\",1,null,absent,\"ab\",\"null\",[\"a\"], a key ending in a backslash, a key holding backslash-t} and of 4 (thorough <=6) rows over a 7-key core of them (including the empty stream and streams whose every row is dropped) x 16 upstream pipelines (--skip 1 --take 2^64-1; --unique on a selection without the key; two selections under one name; take 35 and skip 3 take 100 among them; none, select, select of the key only (so that rows repeat), filter, unique, sort by id desc, sort by the mixed-type key, skip+take, split, take 0, select+sort+skip+take) x {--group-by=.k, --group-by=(get . \"k\"), --merge} x {json, text output}; long cyclic streams of 17, 40, 300 and 1100 rows; streams with 15..257 distinct keys each coming back; non-trivial = two rows share a key or a row is dropped for its key; distinct by construction",
         explanation: "exactly one value must be printed, after the input ended; it is compared (a) with the documented grouping applied to the rows the same pipeline prints without grouping (differential) and (b) with the reference pipeline",
         assumptions: COMMON_ASSUMPTIONS.to_vec(),
         guards: vec!["command-line-respelled", "many-distinct-keys", "empty-input", "no-row-survives", "non-string-key-dropped", "absent-key-dropped", "two-rows-share-a-key", "limiter-before-grouper", "empty-string-key", "non-ascii-key", "text-output"],
@@ -79,6 +79,11 @@ fn upstreams() -> Vec<Up> {
         mk("skip3-take100", &|c| {
             c.skip = 3;
             c.take = Some(100)
+        }, false),
+        // limits whose sum does not fit in 64 bits: the rows after the first, all of them
+        mk("skip1-take-max", &|c| {
+            c.skip = 1;
+            c.take = Some(u64::MAX)
         }, false),
         mk("select+sort+skip+take", &|c| {
             c.selects = vec![(p(".k"), "k".into()), (p(".id"), "id".into())];
